@@ -134,14 +134,18 @@ class Emitter:
             for ev, atom in st['cond_defer']:
                 self.w('  template<class Fsm> bool is_event_deferred(const %s& e, Fsm& f) const { return rt::guard(%d, e, f); }' % (ev, atom))
             self.w('#endif')
-        self.w('  template<class Ev,class Fsm> void on_entry(Ev const& e, Fsm& f){ rt::entry(%d,"%s",this,e,f); }' % (idx, name))
+        if self.feat.get('serialize'):
+            self.w('  int cnt = 0;')
+            if st.get('serialize'):
+                self.w('  typedef int do_serialize; template<class Ar> void serialize(Ar& ar, const unsigned int){ ar & cnt; }')
+            self.w('  template<class Ev,class Fsm> void on_entry(Ev const& e, Fsm& f){ ++cnt; rt::entry(%d,"%s",this,e,f); }' % (idx, name))
+        else:
+            self.w('  template<class Ev,class Fsm> void on_entry(Ev const& e, Fsm& f){ rt::entry(%d,"%s",this,e,f); }' % (idx, name))
         self.w('  template<class Ev,class Fsm> void on_exit(Ev const& e, Fsm& f){ rt::exit_(%d,"%s",this,e,f); }' % (idx, name))
         if st.get('internal'):
             self.w('  struct internal_transition_table : boost::mpl::vector<')
             self.w('    ' + ',\n    '.join(self.irow_cpp(r) for r in st['internal']))
             self.w('  > {};')
-        if st.get('serialize'):
-            self.w('  int cnt = 0;')
         self.w('};')
 
     def emit_machine(self, m, is_root):
@@ -164,7 +168,7 @@ class Emitter:
             self.w('  typedef boost::mpl::vector<%s> flag_list;' % ','.join(st_self['flags']))
         if st_self.get('deferred'):
             self.w('  typedef boost::mpl::vector<%s> deferred_events;' % ','.join(st_self['deferred']))
-        self.w('  template<class Ev,class Fsm> void on_entry(Ev const& e, Fsm& f){ rt::entry(%d,"%s",this,e,f); }' % (idx, name))
+        self.w('  template<class Ev,class Fsm> void on_entry(Ev const& e, Fsm& f){ %srt::entry(%d,"%s",this,e,f); }' % ('++data; ' if self.feat.get('serialize') else '', idx, name))
         self.w('  template<class Ev,class Fsm> void on_exit(Ev const& e, Fsm& f){ rt::exit_(%d,"%s",this,e,f); }' % (idx, name))
         self.w('  typedef boost::mpl::vector<%s> initial_state;' % ','.join(reg[0] for reg in m['regions']))
         rows = [self.row_cpp(m, r) for r in m['table']]
@@ -201,8 +205,10 @@ class Emitter:
             self.w('  typedef %s active_state_switch_policy;' % pol)
         if m.get('no_exception'):
             self.w('  typedef int no_exception_thrown;')
-        if m.get('serialize'):
+        if self.feat.get('serialize'):
             self.w('  int data = 0;')
+            if m.get('serialize'):
+                self.w('  typedef int do_serialize; template<class Ar> void serialize(Ar& ar, const unsigned int){ ar & data; }')
         self.w('};')
         self.w('typedef RT_BACK(%s_, %s) %s;' % (name, self.hist_back(m), name))
         if not is_root:
@@ -377,6 +383,15 @@ class Emitter:
             w('  o += "%s=" + std::to_string((int)r.is_flag_active<%s>()) + ";";' % (f, f))
         w('}')
         w('inline void probe_all(Root& r, std::string& o){ dump_ids(r, o);')
+        if self.feat.get('serialize'):
+            for m, path in paths:
+                w('  o += "data:%s=" + std::to_string(mach_%s(r).data) + ";";' % (m['name'], m['name']))
+                for sname in S.state_order(m):
+                    if m['states'][sname]['kind'] != 'sub':
+                        tname = sname
+                        if m['states'][sname]['kind'] == 'exit_pt':
+                            tname = '%s::exit_pt<%s>' % (m['name'], sname)
+                        w('  o += "cnt:%s=" + std::to_string(RT_GET(mach_%s(r), %s).cnt) + ";";' % (sname, m['name'], tname))
         if self.feat.get('visitable'):
             w('#if CFG >= 5')
             for mode in ('active_recursive', 'active_non_recursive', 'all_recursive', 'all_non_recursive'):
